@@ -25,11 +25,13 @@ WConnErrOthersLive == NewConnErr /\ Cardinality(DOMAIN fwdTab) > 0
 WSentAfterError == SinkWriteOk /\ Len(done) > 0 /\ done[Len(done)].out # "sent"
 SReply == {k \in DOMAIN fwdTab : rxq[k] # << >> /\ k \notin sockErr}
 WReplyWhileLeftParked == lpc = "write" /\ SReply # {} /\ ReadReply(CHOOSE k \in SReply : TRUE)
+WReplyDroppedByClient == stalled /\ SReply # {} /\ ReadReply(CHOOSE k \in SReply : TRUE)
+WDnsDoneThoughDropped == stalled /\ rpc = "regin" /\ RegisterIncoming /\ Rev(rcur.lab) \in DOMAIN pipeTab /\ pipeTab[Rev(rcur.lab)].pend = 1
 WLastSurvivesTick == Tick /\ DOMAIN pipeTab # {} /\ ExpiredSet = {} /\ \E k \in DOMAIN pipeTab : pipeTab[k].la + T = now
 
 Witnesses == WFreshAfterExpiry \/ WExpireWhileMirrorLives \/ WExpireSeveral \/ WDnsReleaseOthersLive
              \/ WSendErrOthersLive \/ WErrReadOthersLive \/ WConnErrOthersLive \/ WSentAfterError
-             \/ WReplyWhileLeftParked \/ WLastSurvivesTick
+             \/ WReplyWhileLeftParked \/ WLastSurvivesTick \/ WReplyDroppedByClient \/ WDnsDoneThoughDropped
 
 MCNext == Next \/ Witnesses
 MCSpec == Init /\ [][MCNext]_vars
